@@ -39,7 +39,7 @@ def main():
         "hooks": {
             "guard": "LENA_VERIF",
             "enable": "none needed: every observation point is reachable from outside "
-                      "(sys.monitoring, icontract wrappers, audit hooks); ./check exports "
+                      "(sys.monitoring, contract wrappers rebound from outside, audit hooks); ./check exports "
                       "LENA_VERIF=1 for future guarded hooks",
             "baseline_off_cmd": BASELINE,
             "source_commits": [],
@@ -50,7 +50,7 @@ def main():
             "serves_properties": [c["property_id"] for c in checks],
             "kind_free_text": "runtime monitoring: the real lena code of /repo's working tree "
                               "is driven by generated/enumerated workloads in worker "
-                              "processes while monitors (reference-model oracles, icontract "
+                              "processes while monitors (reference-model oracles, live "
                               "contracts, identity-graph walkers, sys.monitoring line/raise "
                               "events, audit hooks, probe iterators) watch every execution",
         }],
